@@ -137,3 +137,8 @@ impl Block for ZeroCrossing {
         Ok(BlockRet::Again)
     }
 }
+
+#[cfg(rustradio_verif)]
+pub mod verif_access {
+    include!(concat!(env!("RUSTRADIO_VERIF_DIR"), "/access/zero_crossing.rs"));
+}
